@@ -916,6 +916,35 @@ func (w *speller) key(s string) {
 		w.tok(sb.String())
 		return
 	}
+	if w.st.lex() && s != "" && !BareIdentOK(s) && utf8.ValidString(s) && w.st.R.IntN(4) == 0 {
+		// "identifiers are subject to the same escapes as strings": any key
+		// can be written without quotes when the characters that cannot stand
+		// in an identifier are escaped
+		var sb strings.Builder
+		for i, c := range s {
+			identChar := c == '_' || (c >= 'a' && c <= 'z') || (c >= 'A' && c <= 'Z') || (c >= '0' && c <= '9' && i > 0) ||
+				(c >= 0x80 && isXIDContinueSample(c) && (i > 0 || isXIDStartSample(c)))
+			switch {
+			case identChar:
+				sb.WriteRune(c)
+			case simpleEsc[c] != "":
+				sb.WriteString(simpleEsc[c])
+			case c < 0x20 || c == 0x7f || c == 0xfffd || (c >= '0' && c <= '9'):
+				if w.st.coin(2) && c <= 0xff {
+					fmt.Fprintf(&sb, `\x%02x`, c)
+				} else {
+					fmt.Fprintf(&sb, `\u%04x`, c)
+				}
+			case identityEscapable(c) && w.st.R.IntN(3) != 0:
+				sb.WriteByte('\\')
+				sb.WriteRune(c)
+			default:
+				fmt.Fprintf(&sb, `\u{%x}`, c)
+			}
+		}
+		w.tok(sb.String())
+		return
+	}
 	w.tok(w.quoted(s))
 }
 
